@@ -19,6 +19,7 @@ CONSTANTS
   BootAll = TRUE
   MaxRank = 3
   AllRanks = FALSE
+  AllowMulti = FALSE
   AllowBadMerge = FALSE
   AllowBad = FALSE
   PubWeight = 1
